@@ -305,7 +305,7 @@ func (e *Engine) operand(st *State, fr *Frame, v ssa.Value) Value {
 	if r, ok := fr.regs[v]; ok {
 		return r
 	}
-	return VUnknown{v.Type(), "undefined register " + v.Name()}
+	return VUnknown{Typ: v.Type(), Note: "undefined register " + v.Name()}
 }
 
 func (e *Engine) constValue(c *ssa.Const) Value {
@@ -329,7 +329,7 @@ func (e *Engine) constValue(c *ssa.Const) Value {
 		f, _ := constant.Float64Val(c.Value)
 		return sym(IntLit(int64(f)))
 	}
-	return VUnknown{t, "const"}
+	return VUnknown{Typ: t, Note: "const"}
 }
 
 // globalCell returns the heap cell for a package-level variable. Cells for globals are created lazily in
@@ -537,7 +537,7 @@ func (e *Engine) step(st *State, fr *Frame, instr ssa.Instruction) bool {
 				cell := e.newCell(st, VStruct{fs})
 				fr.regs[in] = VSlice{Cell: cell, Lo: 0, Hi: n}
 			} else {
-				fr.regs[in] = VUnknown{in.Type(), "makeslice"}
+				fr.regs[in] = VUnknown{Typ: in.Type(), Note: "makeslice"}
 			}
 		}
 	case *ssa.MakeChan:
@@ -577,7 +577,7 @@ func constIndex(v Value) (int, bool) {
 // havoc returns an unconstrained value of type t.
 func (e *Engine) havoc(st *State, t types.Type, hint string) Value {
 	if t == nil {
-		return VUnknown{nil, hint}
+		return VUnknown{Typ: nil, Note: hint}
 	}
 	if tt, ok := t.(*types.Tuple); ok {
 		vs := make([]Value, tt.Len())
@@ -606,7 +606,7 @@ func (e *Engine) havoc(st *State, t types.Type, hint string) Value {
 	case *types.Map:
 		return e.symbolicMap(st, u, fmt.Sprintf("%s.%d", hint, e.nextID()))
 	}
-	return VUnknown{t, hint}
+	return VUnknown{Typ: t, Note: hint, ID: e.nextID()}
 }
 
 func (e *Engine) unop(st *State, fr *Frame, in *ssa.UnOp) bool {
@@ -986,6 +986,9 @@ func (e *Engine) isNilTerm(st *State, v Value) Term {
 			return TFalse
 		}
 	case VUnknown:
+		if a.ID != 0 {
+			return st.declare(fmt.Sprintf("unk.%d.isnil", a.ID), SBool)
+		}
 		return e.fresh(st, "isnil", SBool)
 	}
 	return TFalse
